@@ -1,6 +1,7 @@
 import Cherab.Model.BeamDensity
 import Cherab.Lemmas.BeamDensity
 import Cherab.Lemmas.Gaussian
+import Cherab.Lemmas.BeamTrapezoid
 import Mathlib.Algebra.Order.Floor.Ring
 import Mathlib.Algebra.Order.Floor.Semiring
 import Mathlib.Algebra.Order.Ring.Rat
@@ -258,6 +259,40 @@ theorem line_density_antitone (exp : α → α) (n0 speed range : α) (h : Decay
         simp only [Option.some.injEq] at ha hb
         subst ha; subst hb
         exact ⟨interpFrom_antitone rest x0 f0 z z' hk hzz, interpFrom_ge 0 rest x0 f0 z' hk h3 (not_lt.mp c2)⟩
+
+/-! ## upper bound (proof-deepening pass) -/
+
+/-- **the attenuated line density never exceeds the source value** `n0 = P/(E m e)/v`, for non-negative stopping
+coefficients over an arbitrary strictly increasing node list -/
+theorem line_density_le_source (exp : α → α) (n0 speed range : α) (h : Decay exp n0 speed) (hexp : exp 0 = 1)
+    (zs ss : List α) (hz : zs.Pairwise (· < ·)) (hs : ∀ s ∈ ss, 0 ≤ s) (z a : α)
+    (ha : interpEval range (lineKnots exp n0 speed zs ss) z = some a) : a ≤ n0 := by
+  obtain ⟨h1, h2, h3⟩ := lineKnots_sorted exp n0 speed h zs ss hz hs
+  have hfirst : ∀ p, (lineKnots exp n0 speed zs ss).head? = some p → p.2 = n0 := by
+    intro p hp
+    cases zs with
+    | nil => simp [lineKnots] at hp
+    | cons z0 zs =>
+      cases ss with
+      | nil => simp [lineKnots, cumtrapz, attenuate] at hp
+      | cons s0 ss =>
+        simp only [lineKnots, List.zip_cons_cons, cumtrapz, attenuate, List.map_cons, List.head?_cons,
+          Option.some.injEq] at hp
+        rw [← hp]; simp [hexp]
+  generalize lineKnots exp n0 speed zs ss = knots at *
+  cases knots with
+  | nil => simp [interpEval] at ha
+  | cons p rest =>
+      obtain ⟨x0, f0⟩ := p
+      have hf0 : f0 = n0 := hfirst (x0, f0) rfl
+      have hk : Knots x0 f0 rest := ⟨h1, h2⟩
+      simp only [interpEval] at ha
+      split_ifs at ha with c1 c2 c3 <;> simp only [Option.some.injEq] at ha
+      · rw [← ha, hf0]
+      · rw [← ha, ← hf0]; exact interpFrom_le_first rest x0 f0 z hk (not_lt.mp c1)
+
+example : ∃ a : ℚ, interpEval (0 : ℚ) (lineKnots (fun _ => (1 : ℚ)) 3 2 [0, 1, 2] [1, 5, 0]) (1 / 2) = some a ∧ a ≤ 3 :=
+  ⟨3, by norm_num [lineKnots, cumtrapz, cumtrapzFrom, attenuate, interpEval, interpFrom, lastX, linear1d], le_refl _⟩
 
 /-! ## conservation -/
 
@@ -581,6 +616,68 @@ theorem direction_streamline (sqrt : α → α) (hs : SqrtSpec sqrt) (sigma tanx
   · positivity
 
 
+/-! ## one-zero divergence; frame independence (proof-deepening pass) -/
+
+/-- **one-zero divergence (sheet beam)**: with zero divergence in x the direction has no x-component anywhere — the
+streamlines keep x itself (σx is constant) — whatever the y divergence; and symmetrically -/
+theorem direction_sheet_x (sqrt : α → α) (sigma tany x y z : α) :
+    (beamDirection sqrt sigma 0 tany x y z).1 = 0 := by
+  unfold beamDirection
+  split_ifs <;> simp [vnormalise, directionRaw]
+
+theorem direction_sheet_y (sqrt : α → α) (sigma tanx x y z : α) :
+    (beamDirection sqrt sigma tanx 0 x y z).2.1 = 0 := by
+  unfold beamDirection
+  split_ifs <;> simp [vnormalise, directionRaw]
+
+example : (beamDirection (fun x : ℚ => x) 1 0 1 5 7 2).1 = 0 := direction_sheet_x _ _ _ _ _ _
+
+/-- a linear isometry of velocity space: the rotation part of a rigid change of the plasma frame -/
+structure IsRotation (R : Vec α → Vec α) : Prop where
+  sub : ∀ a b, R (vsub a b) = vsub (R a) (R b)
+  scale : ∀ a s, R (vscale a s) = vscale (R a) s
+  norm : ∀ a, normSqr (R a) = normSqr a
+
+/-- the same species sample seen from the rotated frame -/
+def rotateTarget (R : Vec α → Vec α) (s : Target α) : Target α := { s with v := R s.v }
+
+/-- **frame independence of the stopping coefficient**: rotating the plasma frame (beam velocity and every bulk
+velocity by the same linear isometry) leaves `S` unchanged — only `|v_beam − v_i|` enters -/
+theorem beamStopping_frame_independent (sqrt : α → α) (cf : α) (R : Vec α → Vec α) (hR : IsRotation R) (bv : Vec α)
+    (ts : List (Target α)) :
+    beamStopping sqrt cf (R bv) (ts.map (rotateTarget R)) = beamStopping sqrt cf bv ts := by
+  rw [beamStopping_documented, beamStopping_documented, List.map_map, List.map_map]
+  congr 1
+  apply List.map_congr_left
+  intro s _
+  have hsum : (List.map ((fun j : Target α => (j.charge : α) ^ 2 * j.n) ∘ rotateTarget R) ts)
+      = List.map (fun j : Target α => (j.charge : α) ^ 2 * j.n) ts := List.map_congr_left (fun j _ => rfl)
+  simp only [Function.comp, rotateTarget, vlen, ← hR.sub, hR.norm, hsum]
+
+theorem beamVelocity_rotate (sqrt : α → α) (R : Vec α → Vec α) (hR : IsRotation R) (dir : Vec α) (speed : α) :
+    beamVelocity sqrt (R dir) speed = R (beamVelocity sqrt dir speed) := by
+  have hn : ∀ a : Vec α, vnormalise sqrt a = vscale a (1 / sqrt (normSqr a)) := fun a => rfl
+  unfold beamVelocity
+  rw [hn, hn, hR.norm, hR.scale, hR.scale]
+
+/-- **frame independence of the attenuation table** (hence of `Beam.density`): a rigid change of the plasma frame —
+translation only moves the sample points, whose sampled values are what the model receives; rotation acts on the axis
+direction and on the bulk velocities — does not change the line-density knots -/
+theorem calcAttenuation_frame_independent (sqrt exp : α → α) (echarge amu energy power mass : α) (R : Vec α → Vec α)
+    (hR : IsRotation R) (dir : Vec α) (zs : List α) (targets : List (List (Target α))) :
+    calcAttenuation sqrt exp echarge amu energy power mass (R dir) zs (targets.map (List.map (rotateTarget R)))
+      = calcAttenuation sqrt exp echarge amu energy power mass dir zs targets := by
+  simp only [calcAttenuation_eq, List.map_map]
+  congr 2
+  funext ts
+  simp only [Function.comp, beamVelocity_rotate sqrt R hR]
+  exact beamStopping_frame_independent sqrt _ R hR _ ts
+
+-- non-vacuity: quarter turn about the z axis over ℚ
+example : IsRotation (fun v : Vec ℚ => (-v.2.1, v.1, v.2.2)) :=
+  ⟨fun a b => by simp [vsub]; ring, fun a s => by simp [vscale], fun a => by simp [normSqr]; ring⟩
+
+
 /-! ## ℝ-instances: the hypotheses hold for `Real.sqrt`, `Real.exp`, `π`; cross-section integral; streamlines -/
 
 section RealInst
@@ -670,6 +767,50 @@ theorem full_cross_section_flux_partial (echarge amu energy power mass sigma tan
   simp only [calcAttenuation_eq]
   exact cross_section_flux_at_nodes_partial echarge amu energy power mass sigma tanx tany length clampSqr 1e-9
     (by norm_num) hsig (nodes length n) _ (nodes_increasing length n hn hL) hv q hq hz.1 hz.2
+
+/-- **conservation with an explicit error bound** (closes the gap of `flux_at_nodes_partial` for C² stopping profiles):
+on the code's own sample grid `z_k = k h`, `h = L/(n−1)`, the interpolated line density at every sample point is
+`n0 · exp(−c/v)` with `|c − ∫₀^{z_k} S| ≤ |z_k|³ ζ / (12 k²) = z_k h² ζ / 12`, `ζ` a bound of `|S''|`. -/
+theorem flux_error_bound (exp : ℝ → ℝ) (n0 speed range length ζ : ℝ) (S : ℝ → ℝ) (n k : ℕ)
+    (hr : 0 ≤ range) (hn : 2 ≤ n) (hL : 0 < length) (hk0 : 0 < k) (hk : k < n)
+    (hf : ContDiffOn ℝ 2 S (Set.uIcc 0 (0 + k * (length / ((n - 1 : ℕ) : ℝ)))))
+    (hb : ∀ x, |iteratedDerivWithin 2 S (Set.uIcc 0 (0 + k * (length / ((n - 1 : ℕ) : ℝ)))) x| ≤ ζ) :
+    ∃ c, interpEval range (lineKnots exp n0 speed (nodes length n) ((nodes length n).map S))
+          (k * (length / ((n - 1 : ℕ) : ℝ))) = some (n0 * exp (-c / speed)) ∧
+      |c - ∫ x in (0 : ℝ)..(0 + k * (length / ((n - 1 : ℕ) : ℝ))), S x|
+        ≤ |k * (length / ((n - 1 : ℕ) : ℝ))| ^ 3 * ζ / (12 * k ^ 2) := by
+  set h := length / ((n - 1 : ℕ) : ℝ) with hh
+  obtain ⟨m, rfl⟩ : ∃ m, n = m + 1 := ⟨n - 1, by omega⟩
+  have hz : nodes length (m + 1) = (List.range (m + 1)).map (fun i : ℕ => (0 : ℝ) + i * h) := by
+    unfold nodes
+    apply List.map_congr_left
+    intro i hi
+    rw [node_formula length (m + 1) i hn (List.mem_range.mp hi), zero_add]
+  have hpts : (nodes length (m + 1)).zip ((nodes length (m + 1)).map S)
+      = (List.range (m + 1)).map (fun i : ℕ => ((0 : ℝ) + i * h, S (0 + i * h))) := by
+    rw [hz, List.map_map, List.zip_map']
+    rfl
+  obtain ⟨c, hc, hbound⟩ := cumtrapz_error_bound S 0 h ζ m k hk0 (by omega) hf hb
+  refine ⟨c, ?_, hbound⟩
+  have hq : ((0 : ℝ) + k * h, c) ∈ (nodes length (m + 1)).zip (cumtrapz ((nodes length (m + 1)).zip ((nodes length (m + 1)).map S))) := by
+    rw [hpts]
+    apply List.mem_of_getElem? (i := k)
+    rw [List.getElem?_zip_eq_some]
+    refine ⟨?_, hc⟩
+    rw [hz, List.getElem?_map, List.getElem?_range hk]
+    rfl
+  have := flux_at_nodes_partial exp n0 speed range hr (nodes length (m + 1)) ((nodes length (m + 1)).map S)
+    (nodes_increasing length (m + 1) hn hL) _ hq
+  simpa using this
+
+-- non-vacuity: constant stopping profile S ≡ 7 (ζ = 0: the rule is exact), 5 nodes on [0, 2], third node
+example : ∃ c, interpEval 0 (lineKnots Real.exp 3 2 (nodes 2 5) ((nodes 2 5).map fun _ => (7 : ℝ))) ((2 : ℕ) * ((2 : ℝ) / ((5 - 1 : ℕ) : ℝ)))
+      = some (3 * Real.exp (-c / 2)) ∧
+    |c - ∫ x in (0 : ℝ)..(0 + (2 : ℕ) * ((2 : ℝ) / ((5 - 1 : ℕ) : ℝ))), (7 : ℝ)| ≤ |(2 : ℕ) * ((2 : ℝ) / ((5 - 1 : ℕ) : ℝ))| ^ 3 * 0 / (12 * (2 : ℕ) ^ 2) := by
+  apply flux_error_bound Real.exp 3 2 0 2 0 (fun _ => (7 : ℝ)) 5 2 (le_refl _) (by norm_num) (by norm_num) (by norm_num) (by norm_num)
+  · exact contDiffOn_const
+  · intro x
+    rw [iteratedDerivWithin_const]; simp
 
 /-- derivative of the envelope width: `σ'(z) = z tan²α / σ(z)` -/
 theorem sigmaZ_hasDerivAt (sigma t z : ℝ) (hs : 0 < sigma) :
